@@ -140,6 +140,10 @@ func lpCaps(kind string) lpItem {
 		b = srv.Capability(srv.CapEntry{Type: 1, Mask: make([]byte, 14)}, srv.CapEntry{Type: 2, Mask: make([]byte, 14)})
 	case "request-zero":
 		b = srv.Capability(srv.CapEntry{Type: 1, Mask: make([]byte, 14)}, srv.CapEntry{Type: 2, Mask: srv.MaskWith(14, lpRespBits...)})
+	case "response-zero":
+		b = srv.Capability(srv.CapEntry{Type: 1, Mask: srv.MaskWith(14, lpReqBits...)}, srv.CapEntry{Type: 2, Mask: make([]byte, 14)})
+	case "response-omitted":
+		b = srv.Capability(srv.CapEntry{Type: 1, Mask: srv.MaskWith(14, lpReqBits...)})
 	default:
 		b = srv.Capability(srv.CapEntry{Type: 1, Mask: srv.MaskWith(14, lpReqBits...)}, srv.CapEntry{Type: 2, Mask: srv.MaskWith(14, lpRespBits...)})
 	}
@@ -332,9 +336,9 @@ scan:
 	switch rest[i].Caps {
 	case "all-zero":
 		return "reject", "round 2: all-zero capabilities"
-	case "request-zero":
+	case "request-zero", "response-zero", "response-omitted":
 		if unspec == "" {
-			unspec = "one capability type is all zero"
+			unspec = "one capability type is all zero or missing"
 		}
 	}
 	i++
